@@ -5,7 +5,7 @@
     NOT reduced, so a climbing argument is clamped or passed on, never rejected by the cache
     itself).  This file adds the constructor for it, so that the stacks the harness builds with
     fscache.NewMemCache in them have a model too.  Definitions only. *)
-From GC Require Import Common.Base Model.Paths Model.Fs Model.Views.
+From GC Require Import Common.Base Model.Paths Model.Fs Model.Views Model.Cache.
 
 Inductive cctor :=
 | CK (k : ctor)      (* Filespace(p) / NewSubFS / NewReadonlyFS / NewEncryptFS, as in Model/Views.v *)
@@ -30,3 +30,33 @@ Fixpoint cbuild (c : chain) (ks : list cctor) : option chain :=
     end
   | CKCache :: ks' => cbuild (LCache :: c) ks'
   end.
+
+(** ** Operations through a child view OF A CACHE: Cache.Filespace(p) = fshelper.NewSubFS(cache, p),
+    i.e. the stack [LSub base :: LCache :: below] with the cache's own state (Model/Cache.v)
+    under the sub-path layer.  Every method of fshelper.SubFS reduces its argument(s) (answering
+    an error / false itself when that fails), prepends the base STRING and calls the same method
+    of the cache; SubFS.Filespace only builds another SubFS value. *)
+Definition sub_cache_step (base : bytes) (c : cache) (o : op) : cache * out :=
+  match o with
+  | OFilespace p => (c, match reduce p with Some _ => RUnit | None => RErr end)
+  | _ =>
+    match map_args (fun nn s => transform1 nn (LSub base) s) o with
+    | Some o' => cache_step c (COp o')
+    | None => (c, fail_out o)
+    end
+  end.
+
+(** A history issued partly on the cache itself ([None]) and partly through child views of it
+    ([Some base], base strings as SubFS holds them), with Commits in between. *)
+Inductive vcop :=
+| VDirect (co : cop)
+| VSub (base : bytes) (o : op).
+
+Definition vcache_step (c : cache) (v : vcop) : cache * out :=
+  match v with
+  | VDirect co => cache_step c co
+  | VSub base o => sub_cache_step base c o
+  end.
+
+Definition run_vcache (c : cache) (l : list vcop) : cache :=
+  fold_left (fun c v => fst (vcache_step c v)) l c.
